@@ -94,11 +94,43 @@ def run_sessions(run, sessions, label, quiet="2ms"):
     faults = run_driver(run, binary, sp, tp, quiet=quiet)
     ns, nev, rejected = validate_traces(run, "PoolTrace.tla", "PoolTrace.cfg", tp)
     run.log("%s: %d sessions, %d events validated, %d rejected, %d driver faults" % (label, ns, nev, len(rejected), len(faults)))
+    hung = [(sid, evs) for sid, evs, idx in rejected if any(e.get("ev") == "timeout" for e in evs)]
+    confirmed = set()
+    if hung and label != "repro":
+        # A watchdog timeout is a verdict only if the same session hangs again, alone, with ten times the budget.
+        sid, evs = hung[0]
+        sess = json.loads(json.dumps(by_id[sid]))
+        sess["timeout"] = 10 * (sess.get("timeout") or 30)
+        # same session id, hence the same seeded release schedule; four attempts, at least two must hang again
+        import concurrent.futures as cf
+
+        def attempt(k):
+            rp_s = os.path.join(run.scratch, "sessions-repro%d.ndjson" % k)
+            rp_t = os.path.join(run.scratch, "traces-repro%d.ndjson" % k)
+            for p in (rp_s, rp_t):
+                if os.path.exists(p):
+                    os.remove(p)
+            write_ndjson(rp_s, [sess])
+            run_driver(run, binary, rp_s, rp_t, nshards=1, quiet=quiet, timeout=3600)
+            return sum(1 for e in read_ndjson(rp_t) if e.get("ev") == "timeout")
+        with cf.ThreadPoolExecutor(max_workers=4) as ex:
+            n_to = sum(1 for x in ex.map(attempt, range(4)) if x > 0)
+        run.log("watchdog timeout of session %s: re-run 4 times alone with 10x budget: %d hung again" % (sid, n_to))
+        if n_to >= 2:
+            confirmed.add(sid)
+        else:
+            raise Infra("session %s hit the driver watchdog but did not hang again at least twice in 4 isolated re-runs "
+                        "(not a verdict)" % sid)
     for sid, evs, idx in rejected:
         sess = by_id.get(sid)
         if any(e.get("ev") == "timeout" for e in evs):
-            # a hang of the pool is a C17/C09 matter only if it reproduces; here: infrastructure
-            raise Infra("session %s hit the driver watchdog (not a verdict): %s" % (sid, json.dumps(sess)[:300]))
+            if sid in confirmed:
+                last = [e for e in evs if e.get("ev") != "timeout"][-6:]
+                run.violation("pool:%s:hang" % sess.get("kind"),
+                              {"session": sess, "trace": evs, "spec": "PoolTrace.tla (liveness: every arrived request returns)"},
+                              "pool session (%s) never completes: requests are stuck although the trace shows what they wait for "
+                              "(reproduced 3 times; last events %s; session %s)" % (sess.get("kind"), json.dumps(last)[:300], sid))
+            continue
         key, what = describe(sess, evs, idx)
         run.violation(key, {"session": sess, "trace": evs, "rejected_event_index": idx, "spec": "PoolTrace.tla"}, what)
     if not run.samples:
@@ -183,7 +215,7 @@ def check_c17(run):
             q += 1
             final.append(iso_req(q, rng, ISO_KEYS, ""))
         sessions.append({"id": i + 1, "kind": "capacity", "min": rec["min"], "max": rec["max"], "model": rng.randint(1, 4),
-                         "rules": [], "gated": True, "checkv": False,
+                         "rules": [], "gated": True, "checkv": False, "gatehooks": rng.random() < 0.5, "timeout": 4,
                          "script": [{"op": "burst", "reqs": reqs}, {"op": "quiesce"},
                                     {"op": "burst", "reqs": final}, {"op": "quiesce"}]})
     nrand = 60 if quick else 1500
@@ -205,7 +237,8 @@ def check_c17(run):
             final.append(iso_req(q, rng, ISO_KEYS, ""))
         script += [{"op": "burst", "reqs": final}, {"op": "quiesce"}]
         sessions.append({"id": 100000 + i, "kind": "capacity", "min": mn, "max": mx, "model": rng.randint(1, 4), "rules": [],
-                         "gated": rng.random() < 0.85, "checkv": False, "script": script})
+                         "gated": rng.random() < 0.85, "checkv": False, "gatehooks": rng.random() < 0.5, "timeout": 6,
+                         "script": script})
     ns = run_sessions(run, sessions, "capacity")
 
     def corrupt(evs):     # the same instance handed to a second request while still held
